@@ -265,16 +265,32 @@ func (i *importer) importAttributes(dbcAtts []*dbc.Attribute, dbcAttDefs []*dbc.
 				if ok {
 					switch attType {
 					case specialAttributeMsgCycleTime:
-						msg.SetCycleTime(value.(int))
+						intVal, ok := value.(int)
+						if !ok {
+							return i.errorf(dbcAttVal, &AttributeValueError{Err: ErrInvalidType})
+						}
+						msg.SetCycleTime(intVal)
 
 					case specialAttributeMsgDelayTime:
-						msg.SetDelayTime(value.(int))
+						intVal, ok := value.(int)
+						if !ok {
+							return i.errorf(dbcAttVal, &AttributeValueError{Err: ErrInvalidType})
+						}
+						msg.SetDelayTime(intVal)
 
 					case specialAttributeMsgStartDelayTime:
-						msg.SetStartDelayTime(value.(int))
+						intVal, ok := value.(int)
+						if !ok {
+							return i.errorf(dbcAttVal, &AttributeValueError{Err: ErrInvalidType})
+						}
+						msg.SetStartDelayTime(intVal)
 
 					case specialAttributeMsgSendType:
-						msg.SetSendType(messageSendTypeFromDBC(value.(string)))
+						strVal, ok := value.(string)
+						if !ok {
+							return i.errorf(dbcAttVal, &AttributeValueError{Err: ErrInvalidType})
+						}
+						msg.SetSendType(messageSendTypeFromDBC(strVal))
 					}
 
 					break
@@ -300,7 +316,11 @@ func (i *importer) importAttributes(dbcAtts []*dbc.Attribute, dbcAttDefs []*dbc.
 						}
 
 					case specialAttributeSigSendType:
-						sig.SetSendType(signalSendTypeFromDBC(value.(string)))
+						strVal, ok := value.(string)
+						if !ok {
+							return i.errorf(dbcAttVal, &AttributeValueError{Err: ErrInvalidType})
+						}
+						sig.SetSendType(signalSendTypeFromDBC(strVal))
 					}
 
 					break
